@@ -547,6 +547,24 @@ class SemanticErrorChecker:
                 return False
         return True
 
+    def check_attribute_accesses_in_operand(
+        self, expression, context: ParserRuleContext, task: Task
+    ) -> bool:
+        """Checks every attribute access inside the given operand, however deeply it is nested.
+
+        Returns:
+            True if all attribute accesses inside the operand are valid.
+        """
+        if isinstance(expression, list):
+            return self.check_attribute_access_in_expression(expression, context, task)
+        valid = True
+        if isinstance(expression, dict):
+            for part in expression.values():
+                if isinstance(part, (list, dict)):
+                    if not self.check_attribute_accesses_in_operand(part, context, task):
+                        valid = False
+        return valid
+
     def check_call_output_parameters(self, called_entity: Union[Service, TaskCall]) -> bool:
         """Checks if the output parameters of a Service or Task Call are valid.
 
@@ -891,11 +909,9 @@ class SemanticErrorChecker:
         left = expression["left"]
         right = expression["right"]
 
-        # operands given as attribute access have to be resolvable before their type is looked up
+        # attribute accesses in the operands have to be resolvable before their type is looked up
         for side in (left, right):
-            if isinstance(side, list) and not self.check_attribute_access_in_expression(
-                side, context, task
-            ):
+            if not self.check_attribute_accesses_in_operand(side, context, task):
                 return False
 
         if expression["binOp"] in ["<", ">", "<=", ">="]:
